@@ -1,6 +1,7 @@
 package props
 
 import (
+	"sync/atomic"
 	"testing/iotest"
 	"io"
 	"bufio"
@@ -31,8 +32,37 @@ func flushPools() { runtime.GC(); runtime.GC() }
 
 func encodeImg(img image.Image, o *gen.Opts) ([]byte, error) {
 	var buf bytes.Buffer
-	err := webp.Encode(&buf, img, o.Build())
+	var w io.Writer = &buf
+	if yieldingWriters.Load() {
+		w = &yieldWriter{w: &buf}
+	}
+	err := webp.Encode(w, img, o.Build())
 	return buf.Bytes(), err
+}
+
+// yieldingWriters makes encodeImg hand Encode a writer that behaves like a pipe or a socket: every Write gives up the
+// processor before and after it takes the bytes, and takes larger writes in two pieces. The concurrency checks switch it
+// on while several goroutines run, so that whatever a call still needs after it has handed something back to a pool is
+// exposed to the other goroutines (a bytes.Buffer never yields inside Write).
+var yieldingWriters atomic.Bool
+
+type yieldWriter struct{ w io.Writer }
+
+func (y *yieldWriter) Write(p []byte) (int, error) {
+	runtime.Gosched()
+	n := 0
+	if len(p) > 64 {
+		k, err := y.w.Write(p[:len(p)/2])
+		n += k
+		if err != nil {
+			return n, err
+		}
+		runtime.Gosched()
+		p = p[len(p)/2:]
+	}
+	k, err := y.w.Write(p)
+	runtime.Gosched()
+	return n + k, err
 }
 
 // readerKinds are legal io.Reader behaviours a caller may hand to the decoding entry points: the
